@@ -56,6 +56,8 @@ type Program struct {
 	Inlined          map[string]bool
 	Abstracted       map[string]bool
 	footprints       map[*FuncInfo]*footprintT
+	peg              *pegTheory
+	Repo             string
 	MutableGlobals   map[*types.Var]bool
 	WrittenMaps      map[*types.Var]bool
 	AddrTakenGlobals map[*types.Var]bool
@@ -175,6 +177,9 @@ func (vc *VC) oblige(s *State, kind, site, desc string, pos token.Pos, goal *Ter
 		}
 		s.pc = pc
 		s.assume(goal)
+		return
+	}
+	if s.known(goal) {
 		return
 	}
 	name := vc.fn.Key + "#" + kind
